@@ -16,6 +16,8 @@ try:
     dt = time.time() - t
 finally:
     sh("git -C /repo checkout -- .")
+    # the generated Lean tables were regenerated from the patched tree by the check: bring them back to the tree as it is now
+    sh("cd /verif/harness && /venv/bin/python regen_all.py")
 demo0 = sh(f"cd /repo && PYTHONPATH=/repo/src /venv/bin/python {os.path.join(seed,'demo.py')}")
 lines = [l for l in chk.stdout.splitlines() if l.startswith("VIOLATION") or l.startswith("[")]
 print(json.dumps({"seed": seed, "property": pid, "tier": tier, "demo_exit_patched": demo.returncode, "demo_exit_clean": demo0.returncode,
